@@ -408,7 +408,18 @@ type Clause struct {
 
 type GhostParam struct{ Name, Sort string }
 
+// GhostStmt is a ghost statement attached to a program point: the end of a loop body (atend)
+// or every return (atreturn). "assert" is a proof obligation; "set L := R" updates ghost state.
+type GhostStmt struct {
+	Kind   string // assert | set
+	Clause *Clause
+	LHS    *CE
+	RHS    *CE
+	Text   string
+}
+
 type LoopSpec struct {
+	AtEnd    []*GhostStmt
 	Ord      int
 	Var      string
 	Invs     []*Clause
@@ -457,6 +468,7 @@ type FuncSpec struct {
 	Cex      bool // axiom used only when searching for counterexample models
 	Havoc    []string
 	Notes    []string
+	AtRet    []*GhostStmt
 }
 
 type Specs struct {
@@ -956,6 +968,40 @@ func (sp *Specs) parseFile(path string) error {
 					return err
 				}
 				curLoop.Decr = c
+			case "atend", "atreturn":
+				var gs *GhostStmt
+				if strings.HasPrefix(rest, "set ") {
+					parts := strings.SplitN(strings.TrimPrefix(rest, "set "), ":=", 2)
+					if len(parts) != 2 {
+						return errf("ghost update needs 'set L := R'")
+					}
+					lhs, err := parseCE(strings.TrimSpace(parts[0]))
+					if err != nil {
+						return errf("%v", err)
+					}
+					rhs, err := parseCE(strings.TrimSpace(parts[1]))
+					if err != nil {
+						return errf("%v", err)
+					}
+					gs = &GhostStmt{Kind: "set", LHS: lhs, RHS: rhs, Text: rest}
+				} else if strings.HasPrefix(rest, "assert") {
+					rest = strings.TrimSpace(strings.TrimPrefix(rest, "assert"))
+					c, err := mkClause("assert")
+					if err != nil {
+						return err
+					}
+					gs = &GhostStmt{Kind: "assert", Clause: c, Text: c.Text}
+				} else {
+					return errf("%s needs 'assert ...' or 'set L := R'", kw)
+				}
+				if kw == "atend" {
+					if curLoop == nil {
+						return errf("atend outside a loop")
+					}
+					curLoop.AtEnd = append(curLoop.AtEnd, gs)
+				} else {
+					cur.AtRet = append(cur.AtRet, gs)
+				}
 			case "endloop":
 				curLoop = nil
 			default:
